@@ -34,8 +34,8 @@ def array_type_mix(forms):
 
 def run(ctx):
     ctx.rule = ("lists of 0..3 values from three pools (numbers i/h/f/d/c with runs; texts s/S/b/m/t/r with prefixes and 'immediately'; T/F/N/I and arrays of "
-                "i/s/T/F/S of length 0..2) x every compressed form; blocks of up to 40 forms: all pairs and triples; plus seeded random blocks of longer lists "
-                "(up to 6 values); evaluations = comparisons; non-trivial = distinct form containing a compressed run")
+                "i/s/T/F/S of length 0..2) x every compressed form; blocks of up to 40 forms: all pairs and triples; plus blocks of longer lists "
+                "(up to 6 values: constant stretches and +1 steps, each list against each of its proper prefixes, every compressed form of both); evaluations = comparisons; non-trivial = distinct form containing a compressed run")
     ctx.assumptions = ["default comparison options (no float tolerance)", "MIDI and colour values: only the coherence laws are judged (no order is prescribed)",
                        "a repeated value is never an array (the iterator cannot repeat one)"]
     if ctx.replay:
@@ -66,6 +66,23 @@ def run(ctx):
                     owner.append(nlist)
             if cur:
                 blocks.append(dict(forms=cur, owner=owner))
+        # lists of up to 6 values made of constant stretches and +1 steps: every list meets each of its proper prefixes, all forms of both in one block
+        vec, r = ctx.vectors("ArgValsGen", "ArgValsGen_runs.cfg", "av_runs")
+        ctx.bounds["runs"] = r.distinct
+        by = {json.dumps(v["list"], sort_keys=True): v for v in vec}
+        pairs = []
+        for v in vec:
+            L = v["list"]
+            for k in range(1, len(L)):
+                a = by.get(json.dumps(L[:k], sort_keys=True))
+                if a is not None and len(a["forms"]) + len(v["forms"]) <= 40:
+                    pairs.append((a, v))
+        if not thorough:
+            rng.shuffle(pairs)
+            pairs = pairs[:400]
+        for a, v in pairs:
+            blocks.append(dict(forms=a["forms"] + v["forms"], owner=[1] * len(a["forms"]) + [2] * len(v["forms"])))
+        ctx.notes["prefix_pair_blocks"] = len(pairs)
         ctx.exhaustive = thorough
     p = ctx.path("blocks.ndjson")
     with open(p, "w") as f:
